@@ -559,3 +559,44 @@ V("C43-silent-setmode-err-var","C43",SH+"mode.go","""		if err := components[i](m
 			continue
 		}
 		return err""",expect="silent")
+
+# ---- C42
+V("C42-version-bump-without-migration","C42",MB+"version.go","const currentMetaVersion = 11","const currentMetaVersion = 12",rule="C42.R1")
+V("C42-wrong-version-recorded","C42",MB+"version.go","		return updateVersion(tx, 11)","		return updateVersion(tx, 10)",rule="C42.R2")
+V("C42-step-error-ignored","C42",MB+"version.go","""	err = updateContainersInterruptable(db, []byte{metadataPrefix}, migrateAssociatedObjectValueToIDBytes)
+	if err != nil {
+		return fmt.Errorf("rewrite %q attribute values in metadata: %w", object.AttributeAssociatedObject, err)
+	}
+""","""	err = updateContainersInterruptable(db, []byte{metadataPrefix}, migrateAssociatedObjectValueToIDBytes)
+	if err != nil {
+		db.log.Warn("rewrite attribute values", zap.Error(err))
+	}
+""",rule="C42.R2")
+V("C42-missing-migration-skipped","C42",MB+"version.go","""		migrate, ok := migrateFrom[i]
+		if !ok {
+			return fmt.Errorf("%w: expected=%d, stored=%d", ErrOutdatedVersion, currentMetaVersion, stored)
+		}
+""","""		migrate, ok := migrateFrom[i]
+		if !ok {
+			continue
+		}
+""",rule="C42.R3")
+V("C42-counter-resync-error-dropped","C42",MB+"version.go","""		err := syncCounter(tx, true)
+		if err != nil {
+			return fmt.Errorf("resync object counters: %w", err)
+		}
+		return updateVersion(tx, 11)""","""		_ = syncCounter(tx, true)
+		return updateVersion(tx, 11)""",rule="C42.R2")
+V("C42-no-ctx-poll","C42",MB+"version.go","""		select {
+		case <-db.initCtx.Done():
+			return context.Cause(db.initCtx)
+		default:
+		}
+		if err := db.boltDB.Update(""","""		if err := db.boltDB.Update(""",rule="C42.R4",more=[{"file":MB+"version.go","old":'	"context"\n',"new":""}])
+V("C42-version-recorded-first","C42",MB+"version.go","""func migrateFrom10Version(db *DB) error {
+	err := updateContainersInterruptable(db, []byte{metadataPrefix}, dropHomomorphicIndexes)""","""func migrateFrom10Version(db *DB) error {
+	err := db.boltDB.Update(func(tx *bbolt.Tx) error { return updateVersion(tx, 11) })
+	if err != nil {
+		return err
+	}
+	err = updateContainersInterruptable(db, []byte{metadataPrefix}, dropHomomorphicIndexes)""",rule="C42.R2",more=[{"file":MB+"version.go","old":"		return updateVersion(tx, 11)\n","new":"		return nil\n"}])
